@@ -13,7 +13,7 @@ import os, re, subprocess, sys
 from . import common as C, chan
 
 MODULE = "AcqVerif.Props.C03"
-DRIVERS = ["acq_conc", "acq_chan"]
+DRIVERS = ["acq_conc", "acq_chan", "AcqVerif.Channel.Translated"]
 THEOREMS = ["AcqVerif.C03.%s" % t for t in (
     "no_lost_wakeup", "notifier_wakes_all", "lock_held_only_at_wait_entry", "not_stuck_while_admissible",
     "refusal_returns_null", "space_when_drained", "woken_writer_returns", "reader_drains_in_three_reads")] + [
@@ -301,9 +301,10 @@ def conc_part(ctx, oracle_kinds, nscen, max_runs):
 
 
 def run(ctx):
-    from . import syncskel
+    from . import syncskel, chantr, rtcheck
     syncskel.regenerate(ctx)
-    ctx.prove(MODULE, THEOREMS, extra_targets=DRIVERS)
+    chantr.regenerate(ctx)
+    rtcheck.prove_all(ctx, [(MODULE, THEOREMS, DRIVERS), (chantr.MODULE, chantr.THEOREMS, [])])
     ctx.assumptions += chan.ASSUMPTIONS + [
         "detsched implements mutex/condition-variable semantics faithfully; a step = everything a thread does between two synchronisation calls; sequential consistency of plain loads/stores",
         "fairness of the OS scheduler for every 'eventually' conclusion (the theorems give bounded progress once the enabled thread is scheduled)",
